@@ -73,7 +73,7 @@ def install(reg, src):
         return None
 
     # ---- _invalidate_caches: the four cache fields are None afterwards, the model is untouched
-    @reg.contract(f"{M}:{P_}_invalidate_caches", props=["C13", "C20"])
+    @reg.contract(f"{M}:{P_}_invalidate_caches", props=["C13", "C20", "C08"])
     def _(c):
         P = prob(c)
         before = PState(c.ip, P)
@@ -85,7 +85,7 @@ def install(reg, src):
 
     # ---- minimize / maximize
     def objective_setter(name, sense_lit):
-        @reg.contract(f"{M}:{P_}{name}", props=["C13"], cases={"arg": ["Expression", "int", "float", "other"]})
+        @reg.contract(f"{M}:{P_}{name}", props=["C13", "C08"], cases={"arg": ["Expression", "int", "float", "other"]})
         def _(c):
             sp = Spec(c.ip)
             P = prob(c)
@@ -129,7 +129,7 @@ def install(reg, src):
     objective_setter("maximize", "maximize")
 
     # ---- subject_to
-    @reg.contract(f"{M}:{P_}subject_to", props=["C13"], cases={"arg": ["Constraint", "list2", "list-bad", "other"]})
+    @reg.contract(f"{M}:{P_}subject_to", props=["C13", "C08"], cases={"arg": ["Constraint", "list2", "list-bad", "other"]})
     def _(c):
         sp = Spec(c.ip)
         P = prob(c)
@@ -453,6 +453,10 @@ def install_vars(reg, src):
                 return z3.BoolVal(False)
             base = res.tag[2]
             now = PState(ip, P)
+            if not c.verifying:
+                # the name clause below is proved at an arbitrary name, hence holds at every name (universal generalisation):
+                # callers get it at all the names they reason about
+                assume_varlist_valid(ip, sp, P, before, base)
             return [z3.Select(NAMES_OF(base), nm) == VARSET(ncon), DISTINCT(base), NATSORTED(base),
                     z3.And(z3.Not(now.cache_none["_variables"]), z3.Select(st(ip, "Problem._variables", sym.Ref), P.ref) == base),
                     now.same_model(before)]
@@ -487,6 +491,21 @@ def install_vars(reg, src):
             return z3.Select(NAMES_OF(base), nm) == z3.Or(objocc, excon(s0.ncon))
         forall_name(ip, gen)
     reg.assume_varlist_valid = assume_varlist_valid
+
+    def varlist_valid_for(ip, sp, P, s0):
+        """The predicate `valid(base)` of the `variables` contract for model state s0 (same vocabulary, same instances): the
+        list object `base` is what a fresh computation gives -- checked, like every for-all-names goal, at the path's name."""
+        nm = NM(ip)
+        EXPR = sp.S.F("expr", sym.Ref)
+        excon = named_exists(ip, "EXCON", [s0.cons, nm], s0.ncon, lambda k: sp.S.OCC(EXPR(z3.Select(s0.cons, k)), nm))
+
+        def pw(k):
+            if _once(ip, f"conocc:{s0.cons}:{k}"):
+                sp.occ(Opaque(EXPR(z3.Select(s0.cons, k)), "Expression"), nm)
+        seqs(ip).pointwise.append(pw)
+        objocc = z3.And(z3.Not(s0.obj_none), sp.occ(Opaque(s0.obj, "Expression"), nm))
+        return lambda base: z3.And(z3.Select(NAMES_OF(base), nm) == z3.Or(objocc, excon(s0.ncon)), DISTINCT(base), NATSORTED(base))
+    reg.varlist_valid_for = varlist_valid_for
     reg.NM = NM
     reg.NAMES_OF, reg.NATSORTED, reg.DISTINCT = NAMES_OF, NATSORTED, DISTINCT
 
@@ -507,7 +526,7 @@ def install_rest(reg, src):
     # is_linear gets the functional clause (only used by callers that need cache exactness)
     reg.ISLIN = ISLIN
 
-    @reg.contract(f"{M}:{P_}_is_linear_problem", props=["C13", "C08", "C04"], cases={"cache": ["none", "set"], "objective": ["none", "set"]})
+    @reg.contract(f"{M}:{P_}_is_linear_problem", props=["C13", "C08", "C04", "C06"], cases={"cache": ["none", "set"], "objective": ["none", "set"]})
     def _(c):
         sp = Spec(c.ip)
         ip = c.ip
